@@ -21,6 +21,7 @@ import (
 
 type Prog struct {
 	sigs map[string]recordedSig
+	renamed []string // renames bridged by resolveRenames (reported in the evidence)
 	gw     map[string]map[string]bool
 	gwOnce sync.Once
 	repoDir     string
@@ -155,6 +156,7 @@ func loadProg(repoDir, verifDir string, overlay map[string][]byte, preferMirror 
 			return nil, err
 		}
 	}
+	p.resolveRenames()
 	return p, nil
 }
 
@@ -346,6 +348,7 @@ func containsStr(xs []string, s string) bool {
 type recordedSig struct {
 	Params   []string `json:"params"`
 	ParamTypes []string `json:"param_types,omitempty"`
+	Results    []string `json:"results,omitempty"`
 	FreeVars []string `json:"freevars"`
 	Callers  []string `json:"callers,omitempty"`
 }
@@ -416,12 +419,35 @@ func cmdRecordSignatures(o *options) int {
 		var rs recordedSig
 		for _, prm := range fn.Params {
 			rs.Params = append(rs.Params, prm.Name())
-			rs.ParamTypes = append(rs.ParamTypes, types.TypeString(prm.Type(), func(pk *types.Package) string { return pk.Path() }))
+			rs.ParamTypes = append(rs.ParamTypes, types.TypeString(prm.Type(), qualPath))
 		}
 		for _, fv := range fn.FreeVars {
 			rs.FreeVars = append(rs.FreeVars, fv.Name())
 		}
+		rs.Results = resultTypeStrings(fn)
 		out[sk] = rs
+	}
+	// field names (by position) and field types of every named struct type of the module
+	for _, sp := range p.ssaPkgs {
+		if sp == nil || !strings.HasPrefix(sp.Pkg.Path(), p.modPath) {
+			continue
+		}
+		for _, m := range sp.Members {
+			t, ok := m.(*ssa.Type)
+			if !ok {
+				continue
+			}
+			st, ok := t.Type().Underlying().(*types.Struct)
+			if !ok {
+				continue
+			}
+			var rs recordedSig
+			for i := 0; i < st.NumFields(); i++ {
+				rs.Params = append(rs.Params, st.Field(i).Name())
+				rs.ParamTypes = append(rs.ParamTypes, types.TypeString(st.Field(i).Type(), qualPath))
+			}
+			out["struct:"+p.shortKey(sp.Pkg.Path()+"."+t.Name())] = rs
+		}
 	}
 	// callers among the functions under contract (static calls, go and defer statements)
 	for fn, sk := range under {
@@ -541,4 +567,162 @@ func (p *Prog) scratchGhostOwner(g string) string {
 		}
 	}
 	return ""
+}
+
+func qualPath(pk *types.Package) string { return pk.Path() }
+
+func resultTypeStrings(fn *ssa.Function) []string {
+	var out []string
+	rs := fn.Signature.Results()
+	for i := 0; i < rs.Len(); i++ {
+		out = append(out, types.TypeString(rs.At(i).Type(), qualPath))
+	}
+	return out
+}
+
+func paramTypeStrings(fn *ssa.Function) []string {
+	var out []string
+	for _, prm := range fn.Params {
+		out = append(out, types.TypeString(prm.Type(), qualPath))
+	}
+	return out
+}
+
+func sameStrings(a, b []string) bool {
+	if len(a) != len(b) {
+		return false
+	}
+	for i := range a {
+		if a[i] != b[i] {
+			return false
+		}
+	}
+	return true
+}
+
+// funcAlias: functions that were renamed since their contract was written, with the short name (package name + "." +
+// recorded target) under which hooks and contracts know them. structAlias: recorded field name -> current field name
+// for struct types whose fields were renamed. Both are filled by resolveRenames from contracts/signatures.json.
+var funcAlias = map[*ssa.Function]string{}
+var structAlias = map[*types.Struct]map[string]string{}
+
+// resolveRenames makes contracts survive the renaming of an unexported function, method or struct field:
+//   - a contract whose target no longer exists is attached to the only function of the same package that has no
+//     contract and no recorded signature of its own (a new name) and has exactly the recorded receiver/parameter and
+//     result types; closures of a renamed function follow it;
+//   - a recorded field name that no longer exists in a struct with an unchanged number of fields is bound to the field
+//     at the same position when that field has the recorded type and a name that was not recorded.
+// Anything ambiguous is left alone (and is then reported as TARGET / GENERATE as before).
+func (p *Prog) resolveRenames() {
+	p.loadSignatures()
+	if len(p.sigs) == 0 {
+		return
+	}
+	renamedPrefix := map[string]string{} // old full key -> new full key
+	var keys []string
+	for key := range p.cs.Funcs {
+		keys = append(keys, key)
+	}
+	sort.Strings(keys)
+	for _, key := range keys {
+		fc := p.cs.Funcs[key]
+		if fc.Variant != "" || strings.Contains(fc.Target, "$") || p.funcs[key] != nil {
+			continue
+		}
+		rs, ok := p.sigs[p.shortKey(key)]
+		if !ok || len(rs.ParamTypes) != len(rs.Params) {
+			continue
+		}
+		var cands []*ssa.Function
+		for k, f := range p.funcs {
+			if f.Pkg == nil || f.Pkg.Pkg.Path() != fc.PkgPath || f.Parent() != nil {
+				continue
+			}
+			if _, has := p.cs.Funcs[k]; has {
+				continue
+			}
+			if _, recorded := p.sigs[p.shortKey(k)]; recorded {
+				continue
+			}
+			if sameStrings(paramTypeStrings(f), rs.ParamTypes) && sameStrings(resultTypeStrings(f), rs.Results) {
+				cands = append(cands, f)
+			}
+		}
+		if len(cands) != 1 {
+			continue
+		}
+		f := cands[0]
+		newKey := p.byFn[f]
+		renamedPrefix[key] = newKey
+		p.funcs[key] = f
+		p.byFn[f] = key
+		funcAlias[f] = f.Pkg.Pkg.Name() + "." + fc.Target
+		p.renamed = append(p.renamed, fmt.Sprintf("%s is now called %s", p.shortKey(key), f.RelString(f.Pkg.Pkg)))
+	}
+	// closures of renamed functions
+	for oldKey, newKey := range renamedPrefix {
+		for k, f := range p.funcs {
+			if strings.HasPrefix(k, newKey+"$") {
+				ok2 := oldKey + k[len(newKey):]
+				if _, taken := p.funcs[ok2]; !taken {
+					p.funcs[ok2] = f
+					p.byFn[f] = ok2
+					funcAlias[f] = f.Pkg.Pkg.Name() + "." + oldKey[len(f.Pkg.Pkg.Path())+1:] + k[len(newKey):]
+				}
+			}
+		}
+	}
+	// struct fields
+	for _, sp := range p.ssaPkgs {
+		if sp == nil || !strings.HasPrefix(sp.Pkg.Path(), p.modPath) {
+			continue
+		}
+		for _, m := range sp.Members {
+			t, ok := m.(*ssa.Type)
+			if !ok {
+				continue
+			}
+			st, ok := t.Type().Underlying().(*types.Struct)
+			if !ok {
+				continue
+			}
+			rs, ok := p.sigs["struct:"+p.shortKey(sp.Pkg.Path()+"."+t.Name())]
+			if !ok || len(rs.Params) != st.NumFields() {
+				continue
+			}
+			current, recorded := map[string]bool{}, map[string]bool{}
+			for i := 0; i < st.NumFields(); i++ {
+				current[st.Field(i).Name()] = true
+				recorded[rs.Params[i]] = true
+			}
+			for i := 0; i < st.NumFields(); i++ {
+				was, is := rs.Params[i], st.Field(i).Name()
+				if was == is || current[was] || recorded[is] {
+					continue
+				}
+				if i < len(rs.ParamTypes) && types.TypeString(st.Field(i).Type(), qualPath) != rs.ParamTypes[i] {
+					continue
+				}
+				if structAlias[st] == nil {
+					structAlias[st] = map[string]string{}
+				}
+				structAlias[st][was] = is
+				p.renamed = append(p.renamed, fmt.Sprintf("field %s.%s is now called %s", t.Name(), was, is))
+			}
+		}
+	}
+	// declarations that name a field
+	fix := func(list []ClosesOnly) {
+		for i := range list {
+			if t := p.resolveType(list[i].PkgPath, list[i].Type); t != nil {
+				if st, ok := t.Underlying().(*types.Struct); ok {
+					if now, ok := structAlias[st][list[i].Field]; ok {
+						list[i].Field = now
+					}
+				}
+			}
+		}
+	}
+	fix(p.cs.ClosesOnly)
+	fix(p.cs.Frozen)
 }
